@@ -11,6 +11,7 @@ package main
 import (
 	"fmt"
 	"math/big"
+	"strconv"
 	"strings"
 
 	"github.com/markkurossi/mpc/circuit"
@@ -21,9 +22,65 @@ import (
 )
 
 // pstmt: t<i> := <l> <op> <r>; operands < 0 are inputs (-1-k), >= 0 temps.
+//
+// OPERAND FORMS (lf, rf; nil = the plain value): what makes the compiler hand
+// the builder a bus that holds its constant wires or a repeated wire
+// (ssa.Program.Circuit): a constant, a shift by a constant, a cast to the
+// wider type (zero extension with cc.ZeroWire(), sign extension repeating the
+// top wire), a truncating cast.  Statements are typed: narrow (N bits) or
+// wide (2N bits, Wide = true); a wide statement takes wide temps, casts of
+// narrow values and constants that may have bits outside the narrow range.
 type pstmt struct {
-	op   string
-	l, r int
+	op     string
+	l, r   int
+	lf, rf *pform
+	Wide   bool
+}
+
+// pform: the form of one operand.
+type pform struct {
+	Kind string   // "const", "shr", "shl", "zx" (cast narrow -> wide), "zxshl" (cast, then shift), "tr" (cast wide -> narrow)
+	K    int      // shift count
+	C    *big.Int // constant
+}
+
+func (f *pform) String() string {
+	if f == nil {
+		return "-"
+	}
+	switch f.Kind {
+	case "const":
+		return "const:" + f.C.String()
+	case "shr", "shl", "zxshl":
+		return fmt.Sprintf("%s:%d", f.Kind, f.K)
+	}
+	return f.Kind
+}
+
+func parseForm(s string) (*pform, error) {
+	if s == "-" {
+		return nil, nil
+	}
+	k, arg, _ := strings.Cut(s, ":")
+	f := &pform{Kind: k}
+	switch k {
+	case "const":
+		c, ok := new(big.Int).SetString(arg, 10)
+		if !ok {
+			return nil, fmt.Errorf("bad constant %q", s)
+		}
+		f.C = c
+	case "shr", "shl", "zxshl":
+		n, err := strconv.Atoi(arg)
+		if err != nil {
+			return nil, err
+		}
+		f.K = n
+	case "zx", "tr":
+	default:
+		return nil, fmt.Errorf("bad operand form %q", s)
+	}
+	return f, nil
 }
 
 type Prog struct {
@@ -47,11 +104,135 @@ func isCmp(op string) bool {
 	return false
 }
 
-func (p *Prog) typ() string {
+func (p *Prog) typ() string { return p.typW(p.N) }
+
+func (p *Prog) typW(w int) string {
 	if p.Signed {
-		return fmt.Sprintf("int%d", p.N)
+		return fmt.Sprintf("int%d", w)
 	}
-	return fmt.Sprintf("uint%d", p.N)
+	return fmt.Sprintf("uint%d", w)
+}
+
+// width of statement i's operands (and of its result unless it is a comparison).
+func (p *Prog) stmtW(i int) int {
+	if p.Stmts[i].Wide {
+		return 2 * p.N
+	}
+	return p.N
+}
+
+// refW: width of the value an operand refers to.
+func (p *Prog) refW(o int) int {
+	if o < 0 {
+		return p.N
+	}
+	return p.stmtW(o)
+}
+
+// expr renders one operand of a statement.
+func (p *Prog) expr(o int, f *pform, w int) string {
+	if f == nil {
+		return p.name(o)
+	}
+	switch f.Kind {
+	case "const":
+		if f.C.BitLen() > 4 {
+			return "0x" + f.C.Text(16)
+		}
+		return f.C.String()
+	case "shr":
+		return fmt.Sprintf("(%s >> %d)", p.name(o), f.K)
+	case "shl":
+		return fmt.Sprintf("(%s << %d)", p.name(o), f.K)
+	case "zx", "tr":
+		return fmt.Sprintf("%s(%s)", p.typW(w), p.name(o))
+	case "zxshl":
+		return fmt.Sprintf("(%s(%s) << %d)", p.typW(w), p.name(o), f.K)
+	}
+	return "?"
+}
+
+// opndVal: the raw bits of an operand of width w, given the raw bits v of the
+// value it refers to (width vw).
+func (p *Prog) opndVal(f *pform, v *big.Int, vw, w int) *big.Int {
+	if f == nil {
+		return v
+	}
+	ext := func() *big.Int {
+		if p.Signed {
+			return modPow2(toSigned(v, vw), w)
+		}
+		return v
+	}
+	switch f.Kind {
+	case "const":
+		return modPow2(f.C, w)
+	case "shr":
+		return new(big.Int).Rsh(v, uint(f.K))
+	case "shl":
+		return modPow2(new(big.Int).Lsh(v, uint(f.K)), w)
+	case "zx":
+		return ext()
+	case "zxshl":
+		return modPow2(new(big.Int).Lsh(ext(), uint(f.K)), w)
+	case "tr":
+		return modPow2(v, w)
+	}
+	return v
+}
+
+// Spec: compact description from which the program can be re-made (replay).
+func (p *Prog) Spec() string {
+	sg := "u"
+	if p.Signed {
+		sg = "s"
+	}
+	parts := []string{fmt.Sprintf("%s %d %d", sg, p.N, p.NIn)}
+	for _, s := range p.Stmts {
+		w := "n"
+		if s.Wide {
+			w = "w"
+		}
+		parts = append(parts, fmt.Sprintf("%s %s %d %s %d %s", s.op, w, s.l, s.lf, s.r, s.rf))
+	}
+	return strings.Join(parts, " | ")
+}
+
+func parseSpec(spec string, target int) (*Prog, error) {
+	parts := strings.Split(spec, " | ")
+	h := strings.Fields(parts[0])
+	if len(h) != 3 {
+		return nil, fmt.Errorf("bad program spec")
+	}
+	p := &Prog{Target: target, Class: "replay", Signed: h[0] == "s"}
+	var err error
+	if p.N, err = strconv.Atoi(h[1]); err != nil {
+		return nil, err
+	}
+	if p.NIn, err = strconv.Atoi(h[2]); err != nil {
+		return nil, err
+	}
+	for _, st := range parts[1:] {
+		f := strings.Fields(st)
+		if len(f) != 6 {
+			return nil, fmt.Errorf("bad statement spec %q", st)
+		}
+		s := pstmt{op: f[0], Wide: f[1] == "w"}
+		if s.l, err = strconv.Atoi(f[2]); err != nil {
+			return nil, err
+		}
+		if s.lf, err = parseForm(f[3]); err != nil {
+			return nil, err
+		}
+		if s.r, err = strconv.Atoi(f[4]); err != nil {
+			return nil, err
+		}
+		if s.rf, err = parseForm(f[5]); err != nil {
+			return nil, err
+		}
+		p.Stmts = append(p.Stmts, s)
+	}
+	return p, nil
 }
 
 func (p *Prog) name(o int) string {
@@ -79,13 +260,14 @@ func (p *Prog) Source() string {
 		if isCmp(s.op) {
 			sb.WriteString("bool")
 		} else {
-			sb.WriteString(p.typ())
+			sb.WriteString(p.typW(p.stmtW(i)))
 		}
 		rets = append(rets, p.name(i))
 	}
 	sb.WriteString(") {\n")
 	for i, s := range p.Stmts {
-		fmt.Fprintf(&sb, "\t%s := %s %s %s\n", p.name(i), p.name(s.l), s.op, p.name(s.r))
+		w := p.stmtW(i)
+		fmt.Fprintf(&sb, "\t%s := %s %s %s\n", p.name(i), p.expr(s.l, s.lf, w), s.op, p.expr(s.r, s.rf, w))
 	}
 	fmt.Fprintf(&sb, "\treturn %s\n}\n", strings.Join(rets, ", "))
 	return sb.String()
@@ -99,11 +281,11 @@ func (p *Prog) ops() string {
 	return strings.Join(o, " ")
 }
 
-// ref: the value of `x op y` on N-bit operands (raw bits); nil = undefined.
-func (p *Prog) ref(op string, x, y *big.Int) *big.Int {
+// ref: the value of `x op y` on n-bit operands (raw bits); nil = undefined.
+func (p *Prog) ref(op string, x, y *big.Int, n int) *big.Int {
 	a, b := x, y
 	if p.Signed {
-		a, b = toSigned(x, p.N), toSigned(y, p.N)
+		a, b = toSigned(x, n), toSigned(y, n)
 	}
 	var v *big.Int
 	switch op {
@@ -147,16 +329,16 @@ func (p *Prog) ref(op string, x, y *big.Int) *big.Int {
 	case "!=":
 		return b2i(a.Cmp(b) != 0)
 	}
-	return modPow2(v, p.N)
+	return modPow2(v, n)
 }
 
 func (p *Prog) outBits() []int {
 	var r []int
-	for _, s := range p.Stmts {
+	for i, s := range p.Stmts {
 		if isCmp(s.op) {
 			r = append(r, 1)
 		} else {
-			r = append(r, p.N)
+			r = append(r, p.stmtW(i))
 		}
 	}
 	return r
@@ -220,8 +402,9 @@ func (p *Prog) judge(in []*big.Int, outs []*big.Int) (bad int, x, y, want *big.I
 		return outs[o]
 	}
 	for i, s := range p.Stmts {
-		xv, yv := val(s.l), val(s.r)
-		w := p.ref(s.op, xv, yv)
+		n := p.stmtW(i)
+		xv, yv := p.opndVal(s.lf, val(s.l), p.refW(s.l), n), p.opndVal(s.rf, val(s.r), p.refW(s.r), n)
+		w := p.ref(s.op, xv, yv, n)
 		if w == nil {
 			undef++
 			continue
@@ -238,15 +421,17 @@ func (p *Prog) failDetail(sig string, stmt int, in []*big.Int, x, y, got, want *
 	if p.Target == 1 {
 		tn = "GMW"
 	}
-	d := map[string]any{"sig": sig, "kind": "program", "src": p.Source(), "target": tn, "type": p.typ(), "ops": p.ops(),
-		"class": p.Class, "statements": len(p.Stmts)}
+	d := map[string]any{"sig": sig, "kind": "program", "src": p.Source(), "spec": p.Spec(), "target": tn, "type": p.typ(),
+		"ops": p.ops(), "class": p.Class, "statements": len(p.Stmts)}
 	key := fmt.Sprintf("%s|%02d|%04d|%s|%s|%s|%d", sig, len(p.Stmts), p.N*p.NIn, tn, p.typ(), p.ops(), stmt)
 	if stmt >= 0 {
 		s := p.Stmts[stmt]
-		d["wrong_statement"] = fmt.Sprintf("%s := %s %s %s", p.name(stmt), p.name(s.l), s.op, p.name(s.r))
+		sw := p.stmtW(stmt)
+		d["wrong_statement"] = fmt.Sprintf("%s := %s %s %s", p.name(stmt), p.expr(s.l, s.lf, sw), s.op, p.expr(s.r, s.rf, sw))
 		d["x"], d["y"], d["got"], d["want"] = x.String(), y.String(), got.String(), want.String()
-		// the same statement alone in its own program
-		q := &Prog{Signed: p.Signed, N: p.N, NIn: 2, Stmts: []pstmt{{op: s.op, l: -1, r: -2}}, Target: p.Target}
+		// the same operation alone in its own program, on plain inputs of the
+		// statement's width that carry the same operand values
+		q := &Prog{Signed: p.Signed, N: sw, NIn: 2, Stmts: []pstmt{{op: s.op, l: -1, r: -2}}, Target: p.Target}
 		verdict := "compile-failed"
 		if c, e := compileProg(q.Source(), p.Target); e == "" {
 			verdict = "compute-error"
@@ -283,8 +468,19 @@ func runProg(j progJob) *jobResult {
 		if i > 0 {
 			jr.count("prog_pair_"+p.Stmts[i-1].op+"_then_"+s.op, 1)
 		}
-		if s.l >= 0 || s.r >= 0 {
+		if (s.l >= 0 && (s.lf == nil || s.lf.Kind != "const")) || (s.r >= 0 && (s.rf == nil || s.rf.Kind != "const")) {
 			jr.count("prog_statements_fed_by_earlier_results", 1)
+		}
+		if s.lf != nil || s.rf != nil {
+			jr.count("prog_statements_with_shaped_operands", 1)
+			for _, f := range []*pform{s.lf, s.rf} {
+				if f != nil {
+					jr.count("prog_form_"+f.Kind, 1)
+				}
+			}
+		}
+		if s.l == s.r && s.lf.String() == s.rf.String() {
+			jr.count("prog_statements_x_op_x", 1)
 		}
 	}
 	circ, e := compileProg(p.Source(), p.Target)
@@ -405,10 +601,10 @@ func progJobs(cf *hxlib.CommonFlags) []progJob {
 					}
 					for t := 0; t < 2; t++ {
 						ps = append(ps, &Prog{Signed: sg, N: n, NIn: 4, Target: t, Class: "pair",
-							Stmts: []pstmt{{o1, -1, -2}, {o2, -3, -4}}})
+							Stmts: []pstmt{{op: o1, l: -1, r: -2}, {op: o2, l: -3, r: -4}}})
 						if !isCmp(o1) && (thorough || (k+t)%2 == 0) {
 							ps = append(ps, &Prog{Signed: sg, N: n, NIn: 3, Target: t, Class: "chain",
-								Stmts: []pstmt{{o1, -1, -2}, {o2, 0, -3}, {o2, -3, 0}}})
+								Stmts: []pstmt{{op: o1, l: -1, r: -2}, {op: o2, l: 0, r: -3}, {op: o2, l: -3, r: 0}}})
 						}
 					}
 				}
@@ -424,12 +620,15 @@ func progJobs(cf *hxlib.CommonFlags) []progJob {
 		for _, sg := range []bool{false, true} {
 			for t := 0; t < 2; t++ {
 				ps = append(ps, &Prog{Signed: sg, N: n, NIn: 2, Target: t, Class: "identity",
-					Stmts: []pstmt{{"/", -1, -2}, {"%", -1, -2}, {"*", 0, -2}, {"+", 2, 1}, {"==", 3, -1}}})
+					Stmts: []pstmt{{op: "/", l: -1, r: -2}, {op: "%", l: -1, r: -2}, {op: "*", l: 0, r: -2}, {op: "+", l: 2, r: 1}, {op: "==", l: 3, r: -1}}})
 				ps = append(ps, &Prog{Signed: sg, N: n, NIn: 4, Target: t, Class: "divs",
-					Stmts: []pstmt{{"/", -1, -2}, {"/", -3, -4}, {"%", -3, -2}, {"/", 0, -4}, {"<", 1, 0}}})
+					Stmts: []pstmt{{op: "/", l: -1, r: -2}, {op: "/", l: -3, r: -4}, {op: "%", l: -3, r: -2}, {op: "/", l: 0, r: -4}, {op: "<", l: 1, r: 0}}})
 			}
 		}
 	}
+	// operand shapes: constants, shifts, casts, x op x (shapeProgs)
+	ps = append(ps, shapeProgs(cf.Seed, thorough)...)
+
 	// random programs
 	nr := 60
 	if thorough {
@@ -460,7 +659,25 @@ func progJobs(cf *hxlib.CommonFlags) []progJob {
 			default:
 				op = cmpOps[r.Intn(len(cmpOps))]
 			}
-			p.Stmts = append(p.Stmts, pstmt{op, pick(), pick()})
+			st := pstmt{op: op, l: pick(), r: pick()}
+			// operand forms (narrow statements): a constant, a shift, x op x
+			switch r.Intn(9) {
+			case 0:
+				st.rf = &pform{Kind: "const", C: smallConst(r, n, p.Signed, op == "/" || op == "%")}
+			case 1:
+				st.lf = &pform{Kind: "const", C: smallConst(r, n, p.Signed, false)}
+			case 2:
+				if !p.Signed && n > 1 {
+					st.lf = &pform{Kind: []string{"shr", "shl"}[r.Intn(2)], K: 1 + r.Intn(n-1)}
+				}
+			case 3:
+				if !p.Signed && n > 1 {
+					st.rf = &pform{Kind: []string{"shr", "shl"}[r.Intn(2)], K: 1 + r.Intn(n-1)}
+				}
+			case 4:
+				st.r = st.l
+			}
+			p.Stmts = append(p.Stmts, st)
 			if !isCmp(op) {
 				arith = append(arith, s)
 			}
@@ -478,8 +695,119 @@ func progJobs(cf *hxlib.CommonFlags) []progJob {
 	return jobs
 }
 
+// smallConst: a constant an n-bit operand type can hold (signed: non-negative,
+// the open findings about negative constants next to wider operands are judged
+// by the single-call oracle); nonZero for divisors.
+func smallConst(r *hxlib.Rng, n int, signed, nonZero bool) *big.Int {
+	w := n
+	if signed {
+		w = n - 1
+	}
+	if w < 1 {
+		return big.NewInt(1)
+	}
+	v := genVal(r, w)
+	if nonZero && v.Sign() == 0 {
+		v = big.NewInt(1)
+	}
+	return v
+}
+
+// shapeProgs: class `cshape`: for every operator, both signednesses and both
+// targets, statements whose operands are created by constants (inside and,
+// for wide statements, OUTSIDE the range of the other operand), shifts by
+// constants, casts to the wider type (zero / sign extension), truncating casts
+// and x op x; three statements per program.
+func shapeProgs(seed uint64, thorough bool) []*Prog {
+	var ps []*Prog
+	r := hxlib.NewRng(seed*6000011 + 99)
+	ns := []int{4}
+	if thorough {
+		ns = []int{3, 4, 5, 8}
+	}
+	all := append(append([]string{}, arithOps...), cmpOps...)
+	cst := func(v int64) *pform { return &pform{Kind: "const", C: big.NewInt(v)} }
+	for _, n := range ns {
+		w := 2 * n
+		for _, sg := range []bool{false, true} {
+			for _, op := range all {
+				div := op == "/" || op == "%"
+				var sts []pstmt
+				add := func(st pstmt) {
+					st.op = op
+					if st.rf != nil && st.rf.Kind == "const" && div && st.rf.C.Sign() == 0 {
+						st.rf = cst(1)
+					}
+					sts = append(sts, st)
+				}
+				top := int64(1)<<uint(n) - 1
+				if sg {
+					top = int64(1)<<uint(n-1) - 1
+				}
+				// narrow statements
+				for _, c := range []int64{0, 1, top, top/2 + 1, int64(r.Intn(int(top) + 1))} {
+					add(pstmt{l: -1, r: -2, rf: cst(c)})
+					add(pstmt{l: -1, r: -2, lf: cst(c)})
+				}
+				add(pstmt{l: -1, r: -1}) // x op x
+				if !sg {
+					for _, k := range uniq([]int{1, n / 2, n - 1}) {
+						add(pstmt{l: -1, r: -2, lf: &pform{Kind: "shr", K: k}})
+						add(pstmt{l: -1, r: -2, rf: &pform{Kind: "shr", K: k}})
+						add(pstmt{l: -1, r: -2, lf: &pform{Kind: "shl", K: k}})
+						add(pstmt{l: -1, r: -2, rf: &pform{Kind: "shl", K: k}})
+						add(pstmt{l: -1, r: -2, lf: &pform{Kind: "shr", K: k}, rf: cst(int64(1) << uint(n-1))})
+						add(pstmt{l: -1, r: -2, lf: &pform{Kind: "shl", K: k}, rf: cst(1)})
+						add(pstmt{l: -1, r: -1, lf: &pform{Kind: "shr", K: k}, rf: &pform{Kind: "shr", K: k}})
+					}
+				}
+				// wide statements: casts against constants inside / outside the
+				// narrow range, against each other
+				wtop := int64(1)<<uint(w) - 1
+				if sg {
+					wtop = int64(1)<<uint(w-1) - 1
+				}
+				zx := &pform{Kind: "zx"}
+				outside := []int64{int64(1) << uint(n), int64(1)<<uint(n) | int64(r.Intn(1<<uint(n))), wtop, wtop/2 + 1}
+				if sg {
+					outside = []int64{int64(1) << uint(n-1), int64(1) << uint(n), wtop, int64(1)<<uint(n) | int64(r.Intn(1<<uint(n)))}
+				}
+				for _, c := range append(outside, 1, top) {
+					add(pstmt{Wide: true, l: -1, r: -2, lf: zx, rf: cst(c)})
+					add(pstmt{Wide: true, l: -1, r: -2, lf: cst(c), rf: zx})
+				}
+				add(pstmt{Wide: true, l: -1, r: -2, lf: zx, rf: zx})
+				add(pstmt{Wide: true, l: -1, r: -1, lf: zx, rf: zx})
+				if !sg {
+					for _, k := range uniq([]int{1, n, w - 1}) {
+						add(pstmt{Wide: true, l: -1, r: -2, lf: &pform{Kind: "zxshl", K: k}, rf: zx})
+						add(pstmt{Wide: true, l: -1, r: -2, lf: zx, rf: &pform{Kind: "zxshl", K: k}})
+						add(pstmt{Wide: true, l: -1, r: -2, lf: &pform{Kind: "zxshl", K: k}, rf: cst(int64(1) << uint(k/2))})
+					}
+				}
+				// three statements per program, both targets
+				for i := 0; i < len(sts); i += 3 {
+					j := i + 3
+					if j > len(sts) {
+						j = len(sts)
+					}
+					for t := 0; t < 2; t++ {
+						p := &Prog{Signed: sg, N: n, NIn: 2, Target: t, Class: "cshape", Stmts: append([]pstmt{}, sts[i:j]...)}
+						// a last statement on the truncated first result (wide -> narrow cast)
+						if !isCmp(op) && p.Stmts[0].Wide {
+							p.Stmts = append(p.Stmts, pstmt{op: op, l: 0, r: -2, lf: &pform{Kind: "tr"}})
+						}
+						ps = append(ps, p)
+					}
+				}
+			}
+		}
+	}
+	return ps
+}
+
 // runPOne: one program on one input vector (replay).
-func runPOne(o *hxlib.Out, target, src, inputs string) bool {
+func runPOne(o *hxlib.Out, target, src, inputs, spec string) bool {
 	t := 0
 	if target == "GMW" || target == "1" {
 		t = 1
@@ -504,7 +832,16 @@ func runPOne(o *hxlib.Out, target, src, inputs string) bool {
 		fmt.Println("Compute:", err)
 		return false
 	}
-	p, err := parseProg(src, t)
+	var p *Prog
+	if spec != "" {
+		// programs with operand forms carry their description
+		p, err = parseSpec(spec, t)
+		if err == nil && p.Source() != src {
+			err = fmt.Errorf("the recorded description does not give the recorded source")
+		}
+	} else {
+		p, err = parseProg(src, t)
+	}
 	if err != nil {
 		fmt.Println("c07 replay:", err)
 		return true
@@ -554,7 +891,7 @@ func parseProg(src string, target int) (*Prog, error) {
 				}
 				return -1 - int(s[0]-'a')
 			}
-			p.Stmts = append(p.Stmts, pstmt{f[3], opnd(f[2]), opnd(f[4])})
+			p.Stmts = append(p.Stmts, pstmt{op: f[3], l: opnd(f[2]), r: opnd(f[4])})
 		}
 	}
 	if p.N == 0 || len(p.Stmts) == 0 {
